@@ -244,7 +244,9 @@ def exec_block(stmts, env):
             if t is None:
                 raise NotUnderstood(f"undecidable test {unparse(s.test)}")
             exec_block(s.body if t else s.orelse, env)
-        elif isinstance(s, ast.Pass) or (isinstance(s, ast.Expr) and isinstance(s.value, ast.Constant)):
+        elif isinstance(s, ast.Pass) or (isinstance(s, ast.Expr) and isinstance(s.value, ast.Constant)) or \
+                (isinstance(s, ast.Expr) and isinstance(s.value, (ast.Attribute, ast.Subscript, ast.Name))):
+            # a bare read (what the normaliser leaves of `x = o.a[0]` once the uses are written out): evaluated for what it may raise, no effect
             continue
         elif isinstance(s, ast.Expr) and isinstance(s.value, ast.Call) and '__effects__' in env:
             env['__effects__'].append(('call', ('const', unparse(s.value.func))))
